@@ -88,3 +88,18 @@ package binary
 //@   loop 3 invariant step3: len(step.SampleIDs) == len(step.Samples) && fresh(step.SampleIDs) && fresh(step.Samples) &&
 //@       (forall j in 0..len(step.SampleIDs) :: step.SampleIDs[j] < len(t.outputValues))
 //@   loop 3 invariant outs3: forall j in 0..len(outputSampleIDs) :: outputSampleIDs[j] < len(t.outputValues)
+
+// ---- scalar.go: vector-scalar operators (C05, C17) -----------------------------------------------
+// Result labels: the operand's label set, with the metric name dropped exactly when the operator
+// is arithmetic or carries the bool modifier (promql.VectorscalarBinop); the name is dropped on a
+// private copy, never on the label set handed out by the operand (it may be shared, C17).
+//@ func (*scalarOperator).loadSeries
+//@   requires o != nil && o.next != nil && ctx != nil
+//@   panics may
+//@   ghostvar dropped bool = false
+//@   at line "lbls := vectorSeries[i]" set dropped = false
+//@   after function.DropMetricName set dropped = true
+//@   at line "series[i] = lbls" assert[C05] name-dropped-iff-arithmetic-or-bool: dropped == (!o.opType.IsComparisonOperator() || o.returnBool)
+//@   ensures[C15] series-error-surfaces: callres("model.VectorOperator.Series", 1, 1) != nil ==> result != nil
+//@   ensures[C05,C18] one-label-set-per-input-series: result == nil ==> len(o.series) == len(callres("model.VectorOperator.Series", 1, 0))
+//@   loop 0 invariant o != nil && len(series) == len(vectorSeries) && fresh(series)
